@@ -46,10 +46,18 @@ package tree
 // node reached at level h when descending from root along the bits of idx (level 32 = root, level 0 = leaf)
 //@ spec fn desc(L map[Hash]Hash, R map[Hash]Hash, root Hash, idx uint32, h int) Hash = ite(h >= 32, root, ite(bitAt(idx, h), R[desc(L, R, root, idx, h+1)], L[desc(L, R, root, idx, h+1)]))
 
+// the pinned SELECT as seen from getRHTNode (SQL semantics assumed, A5: rht is content-addressed by its PRIMARY KEY hash);
+// the function itself is proved: only "no rows" becomes "not found", the look-up goes through the caller's querier
+//@ extern github.com/russross/meddler.QueryRow@tree.(*Tree).getRHTNode (db, dst, query, args)
+//@   modifies *cast(dst, *types.TreeNode)
+//@   ensures plainErr(result) && result != errvar("db.ErrNotFound")
+//@   ensures result == nil ==> rhtHas(caller.t)[caller.nodeHash] && cast(dst, *types.TreeNode).Hash == caller.nodeHash && cast(dst, *types.TreeNode).Left == rhtL(caller.t)[caller.nodeHash] && cast(dst, *types.TreeNode).Right == rhtR(caller.t)[caller.nodeHash] && caller.nodeHash == H(cast(dst, *types.TreeNode).Left, cast(dst, *types.TreeNode).Right)
+//@   ensures (result != nil && isErr(result, sql.ErrNoRows)) ==> !rhtHas(caller.t)[caller.nodeHash]
+//@   ensures (result != nil && !isErr(result, sql.ErrNoRows)) ==> !isErr(result, errvar("db.ErrNotFound"))
 //@ func (t *Tree) getRHTNode
 //@   props C01 C08 C11
-//@   trusted
 //@   definitional
+//@   assert call:QueryRow arg0 == tx && typeIs(arg1, *types.TreeNode) && cast(arg1, *types.TreeNode) == node
 //@   sqltext "SELECT * FROM %s WHERE hash = $1"
 //@   requires t != nil
 //@   modifies nothing
@@ -125,9 +133,20 @@ package tree
 //@   modifies undoCnt(self)
 //@   ensures undoCnt(self) == old(undoCnt(self)) + 1
 
+// the INSERT into the root table as seen from storeRoot (SQL semantics assumed, A5); storeRoot itself is proved: the row
+// written is the root it was given, into this tree's root table, through the caller's transaction
+//@ extern github.com/russross/meddler.Insert@tree.(*Tree).storeRoot (db, table, src)
+//@   requires typeIs(src, *types.Root) && cast(src, *types.Root) != nil
+//@   modifies rootHas(caller.t), rootHash(caller.t), rootBlock(caller.t), rootPos(caller.t), rootLastIdx(caller.t), stmtFail
+//@   ensures plainErr(result)
+//@   ensures stmtFail == old(stmtFail) + ite(result == nil, 0, 1)
+//@   ensures result == nil ==> rootHas(caller.t) == upd(old(rootHas(caller.t)), cast(src, *types.Root).Index, true) && rootHash(caller.t) == upd(old(rootHash(caller.t)), cast(src, *types.Root).Index, cast(src, *types.Root).Hash) && rootBlock(caller.t) == upd(old(rootBlock(caller.t)), cast(src, *types.Root).Index, cast(src, *types.Root).BlockNum) && rootPos(caller.t) == upd(old(rootPos(caller.t)), cast(src, *types.Root).Index, cast(src, *types.Root).BlockPosition)
+//@   ensures result != nil ==> rootHas(caller.t) == old(rootHas(caller.t)) && rootHash(caller.t) == old(rootHash(caller.t)) && rootBlock(caller.t) == old(rootBlock(caller.t)) && rootPos(caller.t) == old(rootPos(caller.t)) && rootLastIdx(caller.t) == old(rootLastIdx(caller.t))
+// which row the ORDER BY block_num, block_position of getLastRootWithTx ranks last afterwards: the old one or the new one
+//@   ensures result == nil ==> rootLastIdx(caller.t) == old(rootLastIdx(caller.t)) || rootLastIdx(caller.t) == cast(src, *types.Root).Index
 //@ func (t *Tree) storeRoot
 //@   props C01 C07 C11
-//@   trusted
+//@   assert call:Insert arg0 == tx && arg1 == t.rootTable
 //@   requires t != nil
 //@   ensures plainErr(result)
 //@   modifies rootHas(t), rootHash(t), rootBlock(t), rootPos(t), rootLastIdx(t), stmtFail
